@@ -121,7 +121,7 @@ fn sna128(pc: u16, port: u8, banks: &[Vec<u8>]) -> Vec<u8> {
     v
 }
 
-const PATHS: [&str; 10] = ["sna-bank7-shown", "ldir-4000", "ldir-c000-bank5", "ldir-c000-bank7-shown", "stores-4000", "fastload", "sna", "scr", "poke", "toggle-bank"];
+const PATHS: [&str; 12] = ["sna-then-flip", "scr-hidden-then-flip", "sna-bank7-shown", "ldir-4000", "ldir-c000-bank5", "ldir-c000-bank7-shown", "stores-4000", "fastload", "sna", "scr", "poke", "toggle-bank"];
 
 /// puts the CPU into a quiet `JR $` loop with interrupts off
 fn quiet(m: &mut Machine) {
@@ -275,6 +275,73 @@ fn install_and_check(ctx: &Ctx, rng: &mut Rng, is128: bool, path: &str, st: &mut
                 sna48(0xBF00, &ram, 3)
             };
             m.emu.load_snapshot(Snapshot::Sna(BufferCursor::new(data))).expect("sna load");
+        }
+        "sna-then-flip" => {
+            // both screen banks hold pictures in the snapshot; the one hidden at load time must be
+            // decoded too once bit 3 of the latch flips it into view (no CPU write in between)
+            if !is128 {
+                return;
+            }
+            let mut banks: Vec<Vec<u8>> = (0..8).map(|_| vec![0u8; 16384]).collect();
+            let scr7 = random_screen(rng);
+            banks[5][..6912].copy_from_slice(&scr);
+            banks[7][..6912].copy_from_slice(&scr7);
+            banks[2][0] = 0x18;
+            banks[2][1] = 0xFE;
+            let shown7 = rng.bool();
+            let port = if shown7 { 8 } else { 0 } | *rng.pick(&[0u8, 1, 4, 6]);
+            m.emu.load_snapshot(Snapshot::Sna(BufferCursor::new(sna128(0x8000, port, &banks)))).expect("sna load");
+            m.run_frames(2);
+            let first = if shown7 { &scr7 } else { &scr };
+            if matches(&m, first).is_none() {
+                ctx.violation("canvas:128k:sna-then-flip:visible-bank", &format!("after loading a 128K snapshot (latch {:02x}) the canvas is not the decode of the shown bank: {}", port, first_diff(&m, first)), jobj! {"case"=>case,"path"=>path});
+                return;
+            }
+            for k in 0..3 {
+                let now7 = if k % 2 == 0 { !shown7 } else { shown7 };
+                m.out(0x7FFD, if now7 { 8 } else { 0 } | (port & 7));
+                m.run_frames(2);
+                st.frames += 2;
+                let want = if now7 { &scr7 } else { &scr };
+                if matches(&m, want).is_none() {
+                    ctx.violation(
+                        "canvas:128k:sna-then-flip:hidden-bank",
+                        &format!("128K snapshot loaded with latch {:02x}; after flipping latch bit 3 to {} the canvas is not the decode of bank {}: {}", port, now7 as u8, if now7 { 7 } else { 5 }, first_diff(&m, want)),
+                        jobj! {"case"=>case,"path"=>path,"flip"=>k},
+                    );
+                    return;
+                }
+            }
+            st.screens += 1;
+            st.paths.insert(format!("{}:{}", is128, path));
+            return;
+        }
+        "scr-hidden-then-flip" => {
+            // SCR loaded while bank 7 is displayed lands in bank 5; it must show after flipping back
+            if !is128 {
+                return;
+            }
+            let scr7 = random_screen(rng);
+            m.out(0x7FFD, 7 | 8);
+            ldir_install(&mut m, &scr7, 0xC000);
+            quiet(&mut m);
+            m.emu.load_screen(Screen::Scr(BufferCursor::new(scr.clone()))).expect("scr load");
+            m.run_frames(2);
+            if matches(&m, &scr7).is_none() {
+                ctx.violation("canvas:128k:scr-hidden-then-flip:visible-bank", &format!("bank 7 is displayed; after an SCR load (which targets bank 5) the canvas is no longer the decode of bank 7: {}", first_diff(&m, &scr7)), jobj! {"case"=>case,"path"=>path});
+                return;
+            }
+            // load_screen parks the CPU in a loop at 0x8000; flip the latch by poking code there
+            m.out(0x7FFD, 7);
+            m.run_frames(2);
+            st.frames += 4;
+            if matches(&m, &scr).is_none() {
+                ctx.violation("canvas:128k:scr-hidden-then-flip:hidden-bank", &format!("SCR loaded while bank 7 was displayed; after switching the display back to bank 5 the canvas is not the decode of the file: {}", first_diff(&m, &scr)), jobj! {"case"=>case,"path"=>path});
+                return;
+            }
+            st.screens += 1;
+            st.paths.insert(format!("{}:{}", is128, path));
+            return;
         }
         "sna-bank7-shown" => {
             if !is128 {
@@ -454,7 +521,7 @@ pub fn run(ctx: &Ctx) -> Evidence {
         }
         st
     });
-    let mut ev = Evidence::new("random and structured 6912-byte screens installed through 10 paths (LDIR to 0x4000, LDIR through 0xC000 with bank 5 / bank 7 shown, individual stores, tape fast-load of a CODE block, SNA snapshot, SCR file, pokes, screen-bank toggling) on 48K/128K, 2-4 quiet frames, canvas compared pixel-exactly with the standard decode (either flash phase, uniform per frame); 56-frame flash runs (flip exactly every 16); single stores at random beam times judged when >= 2 lines before/after the fetch. distinct = (machine, path) combinations exercised");
+    let mut ev = Evidence::new("random and structured 6912-byte screens installed through 12 paths (LDIR to 0x4000, LDIR through 0xC000 with bank 5 / bank 7 shown, individual stores, tape fast-load of a CODE block, SNA snapshot, SCR file, pokes, screen-bank toggling) on 48K/128K, 2-4 quiet frames, canvas compared pixel-exactly with the standard decode (either flash phase, uniform per frame); 56-frame flash runs (flip exactly every 16); single stores at random beam times judged when >= 2 lines before/after the fetch. distinct = (machine, path) combinations exercised");
     let mut paths = HashSet::new();
     for r in res {
         ev.evaluations += r.screens + r.beam_cases;
@@ -468,7 +535,7 @@ pub fn run(ctx: &Ctx) -> Evidence {
         }
     }
     ev.distinct_nontrivial = paths.len() as u64;
-    ctx.require("(machine,path) combinations", paths.len() as u64, 16);
+    ctx.require("(machine,path) combinations", paths.len() as u64, 18);
     ev.assumptions.push("flash phase is free (statement pins only the 16-frame period)".into());
     ev
 }
